@@ -511,7 +511,7 @@ func c01Direct(cs c01Case, out c01Out) string {
 		}
 		raw, ok := DecodeJSONMap(hb)
 		if !ok || !c01SameJSON(raw, raw == nil, out.Prot) {
-			return "returned protected header is not the decoding of the received header segment"
+			return c01PairClass + "returned protected header is not the decoding of the received header segment"
 		}
 		nb64 := false
 		if b, isBool := raw["b64"].(bool); isBool && cs.Kind != "jwt" {
@@ -539,7 +539,7 @@ func c01Direct(cs c01Case, out c01Out) string {
 				return "returned claims are not the decoding of the received payload segment"
 			}
 		} else if !bytes.Equal(want, out.Payload) {
-			return "returned payload is not the received payload segment"
+			return c01PairClass + "returned payload is not the received payload segment read under its own header"
 		}
 		if !c01DirectEntry(cs, h, true, nil, false, sigContent, sg) {
 			return "no standard-library verification of header.payload under the finder's key"
@@ -558,6 +558,7 @@ func c01Direct(cs c01Case, out c01Out) string {
 	} else if _, flat := top["signature"]; flat {
 		entries = []any{top}
 	}
+	pairMismatch := ""
 	for _, e := range entries {
 		m, isObj := e.(map[string]any)
 		if !isObj {
@@ -591,17 +592,18 @@ func c01Direct(cs c01Case, out c01Out) string {
 		if hasUnprot && !c01SameJSON(unprot, false, out.Unprot) {
 			continue
 		}
+		// THIS entry's own header decides how the payload is read (RFC 7797 §3; default b64=true for
+		// an entry without a protected header) — independent of what goat's message flag says
 		sigContent := payloadText
 		var want []byte
 		if cs.HasContent {
 			want = cs.Content
-			// the message flag is the first entry's; all protected headers agree with it
-			if out.Prot.present && out.Prot.nb64 || !out.Prot.present && c01FirstNB64(entries) {
+			if nb64 {
 				sigContent = string(cs.Content)
 			} else {
 				sigContent = c01b64.EncodeToString(cs.Content)
 			}
-		} else if nb64 || (!hasProt && c01FirstNB64(entries)) {
+		} else if nb64 {
 			want = []byte(payloadText)
 		} else {
 			want, err = c01b64.DecodeString(payloadText)
@@ -609,14 +611,29 @@ func c01Direct(cs c01Case, out c01Out) string {
 				continue
 			}
 		}
-		if !bytes.Equal(want, out.Payload) {
+		if !c01DirectEntry(cs, protText, hasProt, unprot, hasUnprot, sigContent, sg) {
 			continue
 		}
-		if c01DirectEntry(cs, protText, hasProt, unprot, hasUnprot, sigContent, sg) {
+		if bytes.Equal(want, out.Payload) {
 			return ""
 		}
+		pairMismatch = fmt.Sprintf("the entry that verifies (protected %q) has b64=%v by its own header, so the payload is %q; returned %q",
+			protText, !nb64, c01Trunc(want), c01Trunc(out.Payload))
+	}
+	if pairMismatch != "" {
+		return c01PairClass + pairMismatch
 	}
 	return "no signature entry of the input carries the returned headers and verifies under the finder's key"
+}
+
+// marker prefix: the (header, payload) pair handed back is not one over which the signature validates
+const c01PairClass = "returned-pair-not-signed: "
+
+func c01Trunc(b []byte) string {
+	if len(b) > 48 {
+		return string(b[:48]) + "…"
+	}
+	return string(b)
 }
 
 // the b64 setting of the first signature entry's protected header (the message flag of goat)
@@ -671,7 +688,11 @@ func c01ExecWith(c *vf.Ctx, d *vf.Driver, cs c01Case, fixed sig.SigningKey, repo
 	// the model agrees (so that a report says which of the two ties noticed)
 	if out.Tag == "ok" {
 		if why := c01Direct(cs, out); why != "" {
-			fail("property", "c01-accept-"+cs.Kind, why+" ("+cs.Tag+")", out.summary(), "rejection, or headers/payload covered by a verifying signature")
+			class := "c01-accept-" + cs.Kind
+			if strings.HasPrefix(why, c01PairClass) {
+				class = "c01-returned-pair-not-signed"
+			}
+			fail("property", class, why+" ("+cs.Tag+")", out.summary(), "rejection, or headers/payload covered by a verifying signature")
 		} else {
 			c.Count("accepted:" + cs.Tag)
 			c.Count("direct-predicate-checked")
